@@ -3,6 +3,9 @@
 import json, os
 HOOK_COMMITS = ["1d323e3"]
 CHECKS = {
+ "C02": dict(cat="exploration", tech="runtime monitoring: differential monitor against the executable reference model + context relation + bounded-exhaustive binding layouts with sentinel arguments",
+   text="About 120 000 seeded programs per quick run exercising every parameter form (positional, default with traced once-only evaluation, variadic, ignored, nested tuple unpacking with leading/trailing rest, map unpacking with `as`), call form (parenthesised, piped, packed, method with self), closures (copy capture of numbers, shared containers, factories, recursion) and generators (lazy, resumable, early return, yield inside loops and try/catch/finally; consumed by for/next/to_tuple/to_list) are evaluated by the reference model and by the real implementation in three surrounding contexts. All 2 000 binding layouts required<=3 x optional<=3 x variadic x supplied<=arity+2 x 6 call forms are enumerated with sentinel arguments so that any register mix-up changes the printed binding.",
+   note="Trusted: reference model and printer (0 residual disagreements on 20 000 calibration programs). Generated function bodies never assign captured names (F-A3 is replayed as a witness instead).", ref="4 C02"),
  "C01": dict(cat="exploration", tech="runtime monitoring: differential monitor of real runs against an independent executable reference model + relational monitor across surrounding contexts + bounded-exhaustive operator trees",
    text="Seeded typed programs over the core subset (about 100 000 per quick run) are evaluated by an independent reference interpreter written from the language guide and run by the real implementation; stdout (with trace lines that make operand evaluation order and single evaluation visible), the result value and the outcome class must agree, and the real runs of the same program at top level, inside a function and after 60 live locals must agree with each other. All operator trees with <= 2 binary operators over a 14-value pool are checked with minimal and full parentheses (complete in thorough).",
    note="Trusted: the reference model kvmodel (calibrated: 0 residual disagreements on 40 000 programs of the pinned tree) and the layout printer. Recorded defect shape F-A1 is avoided by generation (SG-A1), so it is not re-detected by this stream. Bounded by generator depth/size.", ref="4 C01, 3.4.1, appendix A/B"),
